@@ -502,6 +502,9 @@ def plan(tier):
         t.append({'kind': 'wide', 'n': n, 'r': 1})
     for n in (4, 6, 9, 10):
         t.append({'kind': 'wide', 'n': n, 'r': 2})
+    for n in (4, 5) if tier == 'quick' else (4, 5, 6):
+        for f in ('AND', 'OR', 'XOR', 'NAND', 'NOR', 'NXOR', 'GT', 'LT', 'GEQ', 'LEQ'):
+            t.append({'kind': 'disjoint', 'n': n, 'f': f})
     for i in range(len(menu)):
         t.append({'kind': 'incr', 'ci': i})
     t.append({'kind': 'norm'})
@@ -533,7 +536,7 @@ def describe(tier):
         'answers (other phase / reversed variable order); every brute-force solution (first 30 per configuration in the quick tier, 400 in the thorough tier) turned into a CNF '
         'model, checked against get_cnf() and fed back through find_circuit (must decode to itself); for the configurations '
         'marked enum: every model of the CNF distinct on the decoded variables is enumerated, decoded and looked up in the '
-        'solution set, and counted; NoSolutionError iff the solution set is empty. wide: 4..12 inputs with a few care rows (the CNF stays small), r<=2; incremental: search, add one constraint, search again on the same finder. reuse: one model object given to a normalized (or plain) finder and then to a second finder with another basis - second answer as on a fresh model, model unchanged; a time-out must not be an instance of NoSolutionError. Time-limit path through a synchronous fake '
+        'solution set, and counted; NoSolutionError iff the solution set is empty. wide: 4..12 inputs with a few care rows (the CNF stays small), r<=2; disjoint: two outputs f(x0,x1), g(x_{n-2},x_{n-1}) on 4-5 (6) inputs with 2 gates, all 100 pairs of binary operations, both output orders; incremental: search, add one constraint, search again on the same finder. reuse: one model object given to a normalized (or plain) finder and then to a second finder with another basis - second answer as on a fresh model, model unchanged; a time-out must not be an instance of NoSolutionError. Time-limit path through a synchronous fake '
         'pool (returns / times out) and the real fork-based pool for a few configurations. distinct = distinct configuration '
         'outcome classes.',
         'bounds': {
@@ -632,6 +635,18 @@ def run_task(task, acc):
             for mr in wide_models(task['n']):
                 check_config(acc, task['n'], task['r'], b, mr, [], enum_models=False)
         acc.sample({'n': task['n'], 'r': task['r'], 'basis': 'XAIG', 'model': ['(g(x0, x_last) on rows 0..23 and the last 4 rows, * elsewhere)'], 'constraints': []})
+    elif k == 'disjoint':
+        # two outputs on disjoint input pairs: more essential inputs than gates + 1, still realisable
+        n = task['n']
+        rows = 1 << n
+        binops = ('AND', 'OR', 'XOR', 'NAND', 'NOR', 'NXOR', 'GT', 'LT', 'GEQ', 'LEQ')
+        f = task['f']
+        for g in binops:
+            t1 = ''.join('1' if refmodel.gate_bool(f, (bool((j >> (n - 1)) & 1), bool((j >> (n - 2)) & 1))) else '0' for j in range(rows))
+            t2 = ''.join('1' if refmodel.gate_bool(g, (bool((j >> 1) & 1), bool(j & 1))) else '0' for j in range(rows))
+            for mr in ((t1, t2), (t2, t1)):
+                check_config(acc, n, 2, 'XAIG', mr, [], enum_models=False)
+        acc.sample({'n': n, 'r': 2, 'basis': 'XAIG', 'model': ['f(x0,x1)', 'g(x_{n-2},x_{n-1})'], 'constraints': []})
     elif k == 'incr':
         con = constraint_menu(2, 2)[task['ci']]
         for b in ('XAIG', 'FULL'):
